@@ -42,6 +42,10 @@ def step(rec, node, rule, check_original=False):
     if check_original:
         before = S.idshadow(root)
         ids = {id(n) for n in S.nodes_preorder(root)}
+    try:
+        rule.can_apply_to(node)   # the agent pattern: ask on the live tree, rewrite a clone of it
+    except Exception:
+        pass
     copy = node.clone_from_root()
     try:
         change = rule.apply_to(copy)
@@ -100,7 +104,7 @@ def apply_everywhere(rec, root, rules, rng, cap=6, check_original=False):
     return out
 
 
-def inplace_chain(rec, root, rules, rng, steps=6, big=False):
+def inplace_chain(rec, root, rules, rng, steps=6, big=False, on_step=None):
     """Rules are in-place operations: apply a sequence of them directly to ONE evolving tree
     object (no clone_from_root between the steps), the way the repository's own tests use
     them.  Aliased or dangling nodes left behind by one step are then acted on by the next."""
@@ -125,6 +129,8 @@ def inplace_chain(rec, root, rules, rng, steps=6, big=False):
         except Exception:
             break
         done.append((label, getattr(node, "r_index", None)))
+        if on_step is not None and on_step(cur, done) is False:
+            break
         try:
             if too_big(S.shadow(cur), big):
                 break
